@@ -123,7 +123,8 @@ class C06(Property):
       return ["c", c]
 
     def single():
-      route = W.weighted("route", [(3, "expr"), (2, "lists"), (2, "quot")])
+      route = W.weighted("route", [(3, "expr"), (2, "lists"), (2, "quot"),
+                                   (1, "dicts")])
       nnum = W.span("nnum", 1, 4)
       powers = sorted(set(W.choose("pow", 4) for _ in range(nnum)))
       num = [[k, coeff()] for k in powers]
@@ -141,7 +142,8 @@ class C06(Property):
                                  (1, "copyadd"), (1, "copymul"),
                                  (2, "zeronum"), (2, "cascade"),
                                  (1, "parallel"), (2, "divterm"),
-                                 (2, "sharedhub"), (1, "linearize")])
+                                 (2, "sharedhub"), (1, "linearize"),
+                                 (1, "copyonly")])
     if shape == "zeronum":
       # free response: empty numerator, feedback only (needs a delay term)
       tree = single()
@@ -209,8 +211,8 @@ class C06(Property):
         tree = {"op": wrap, "a": tree}
         if wrap == "pow":
           tree["n"] = W.pick("hexp", [2, 3])
-    elif shape == "linearize":
-      tree = {"op": "linearize", "a": single()}
+    elif shape in ("linearize", "copyonly"):
+      tree = {"op": shape, "a": single()}
     elif shape in ("cascade", "parallel"):
       tree = {"op": shape, "a": single(), "b": single()}
     elif shape == "divterm":
@@ -397,6 +399,7 @@ class C06(Property):
     """ Returns the real filter for ``tree`` over the given SimSources. """
     Stream, z, ZFilter = self.ls.Stream, self.lf.z, self.lf.ZFilter
     flip = [cstream]
+    keep_alive = []
     hubs = {}
     uses = {}
 
@@ -431,6 +434,9 @@ class C06(Property):
     def rec(t):
       op = t["op"]
       if op == "single":
+        if t["route"] == "dicts":
+          return ZFilter(dict((k, cval(c)) for k, c in t["num"]),
+                         dict((k, cval(c)) for k, c in t["den"]))
         if t["route"] == "lists":
           size = lambda lst: max([k for k, _ in lst] + [0]) + 1
           num = [0] * size(t["num"])
@@ -469,6 +475,9 @@ class C06(Property):
         return rec(t["a"]) / rec(t["b"])
       if op == "pow":
         return rec(t["a"]) ** t["n"]
+      if op == "copyonly":
+        keep_alive.append(rec(t["a"]))    # the original is never called
+        return keep_alive[-1].copy()
       if op == "linearize":
         return rec(t["a"]).linearize()    # integer delays: the same filter
       if op == "cascade":
@@ -527,7 +536,7 @@ class C06(Property):
     if op == "neg":
       n1, d1 = self.spec_polys(t["a"], n)
       return pscale(-1, n1), d1
-    if op == "linearize":
+    if op in ("linearize", "copyonly"):
       return self.spec_polys(t["a"], n)
     if op == "div":
       n1, d1 = self.spec_polys(t["a"], n)
